@@ -711,7 +711,7 @@ func TestVerifC09(t *testing.T) {
 	run.Assume("descriptions with a duplicated mid are C06's finding: counted (descriptions_with_duplicate_mid), not reported here; the history stops")
 	run.Assume("foreign offers contain only audio/video/application sections with a direction attribute (other sections are dropped by pion's answer, C07's finding)")
 
-	n := kit.N(320, 6400)
+	n := kit.N(480, 8000)
 	run.Parallel(n, 16, func(i int) {
 		r := run.CaseRand(i)
 		h := &c09Hist{run: run, idx: i, r: r}
